@@ -24,7 +24,8 @@ TypeOK ==
     /\ Accept(d) \in BOOLEAN
 WalkAgrees == ImplAccept(d) = Accept(d)
 (* the command judges the submitted checkout in every environment case built on d *)
-CmdAgrees == \A c \in EnvCasesOf(d) : EnvWellFormed(c) /\ ImplCmdAccept(c) = CmdAccept(c)
+CmdAgrees == /\ ClaimedViolating(d) => WellFormed(Twin(d))      \* with WellFormed(d): every case of EnvCasesOf(d) is EnvWellFormed
+             /\ \A c \in EnvCasesOf(d) : ImplCmdAccept(c) = CmdAccept(c)
 Report == (ImplAccept(d) # Accept(d)) =>
              PrintT(<<"DISAGREE", ToJson(d), IF Accept(d) THEN "rejects-conforming" ELSE "accepts-violating">>)
 =============================================================================
